@@ -81,6 +81,7 @@ func (e *Enc) instr(in ssa.Instruction) {
 		v := e.val(x.Val)
 		e.placeStore(p, v.S)
 	case *ssa.Call:
+		e.assertsAt(x)
 		e.call(x, x.Common(), x)
 	case *ssa.Extract:
 		if tv, ok := e.tuples[x.Tuple]; ok && x.Index < len(tv) {
